@@ -153,6 +153,15 @@ def run(ck: Check) -> int:
             sr.distinct = len(ref)
         ck.search('threads', s_threads)
 
+        def s_fs(sr):
+            sr.note = ('file-system change histories: two roots with the same relative names (directory vs link), a directory replaced by '
+                       'a link and back, root given by root_dir / cwd / dir_fd (fd numbers are reused), REALPATH globmatch / globfilter / a '
+                       'compiled matcher reused across states / glob: every answer vs the same call alone in a fresh interpreter')
+            sr.evaluations = K9.fs_change_histories(w, lambda what, inp, exp, obs: ck.report(
+                Failing(what, inp, exp, obs, site='wcmatch/_wcmatch.py:_Match (symlink memo must be per call)'), None))
+            sr.distinct = sr.evaluations
+        ck.search('fs-change-histories', s_fs)
+
         def s_obj(sr):
             sr.note = ('WcMatcher (fnmatch.compile / glob.compile) and the inner WcRegexp: equal and hash-equal when built twice (cold '
                        'cache in between), pickle / copy / deepcopy round trips equal with unchanged behaviour, setattr raises, reuse '
